@@ -258,6 +258,8 @@ contract('mapproxy.client.wms:WMSClient.combined_client', props=['C14'],
 def _same(v, w):
     if hasattr(v, 'ref') or hasattr(w, 'ref'):
         return getattr(v, 'ref', None) == getattr(w, 'ref', -1)
+    if not hasattr(v, 't') or not hasattr(w, 't'):
+        return v is w
     return v.t.eq(w.t)
 
 
@@ -349,3 +351,183 @@ contract('mapproxy.service.wms:combined_layers', props=['C14'],
                         types={'current_layer': 'opaque', 'combined': 'opt[opaque]', 'layers': 'list[opaque]',
                                'combined_layers': 'list[opaque]'},
                         body_trace=[_combine_step], decreases='len(layers)')})
+
+
+# ---- LayerRenderer: every rendered layer enters the merger once, in order, with ITS opacity and ITS coverage ----------------------
+SW = 'mapproxy.service.wms:'
+cls(SW + 'LayerRenderer', fields=dict(layers='list[opaque]', query='opaque', request='opaque', raise_source_errors='bool',
+                                      concurrent_rendering='int'))
+
+
+def _render_layer_spec(ex, st, post, result):
+    import z3
+    from pyvc.values import eq, VSeq, VNone
+    lyr = post.env['layer']
+    gm = [e for i, e in T.evs(st, 'get_map')]
+    ok = len(gm) == 1 and gm[0].recv is not None and gm[0].recv.t.eq(lyr.t) and len(gm[0].args) == 1 \
+        and _same(gm[0].args[0], st.heap[post.env['self'].ref]['query'])
+    yield ('asks_this_layer_for_the_query', z3.BoolVal(bool(ok)), 'the layer is asked for exactly the query of the request, once')
+    sets = [e for e in st.trace if e.name.startswith('setattr:')]
+    if not (isinstance(result, VSeq) and result.concrete and len(result.items) == 2):
+        yield ('returns_layer_and_image', z3.BoolVal(False), 'the result is the pair (layer, image or None)')
+        return
+    r_l, r_i = result.items
+    blank = bool(gm) and gm[0].raised == 'BlankImage'
+    if blank:
+        yield ('blank_layer_contributes_nothing', z3.And(z3.BoolVal(_same(r_l, lyr) and isinstance(r_i, VNone) and not sets)),
+               'a layer that reports a blank image yields (layer, None): it is skipped, not replaced')
+        return
+    img = gm[0].result if gm else None
+    good = img is not None and _same(r_l, lyr)
+    goal = z3.BoolVal(bool(good))
+    if good:
+        goal = z3.And(goal, eq(r_i, img))
+        isnone = img.isnone if hasattr(img, 'isnone') else z3.BoolVal(isinstance(img, VNone))
+        op = [e for e in sets if e.name == 'setattr:opacity']
+        g2 = z3.BoolVal(len(op) == 1 and len(sets) == 1)
+        if len(op) == 1:
+            inner = img.val if hasattr(img, 'isnone') else img
+            g2 = z3.And(g2, z3.BoolVal(_same(op[0].recv, inner)), eq(op[0].args[1], ex.opaque_field_at(st, op[0], lyr, 'opacity')))
+        goal = z3.And(goal, z3.If(isnone, z3.BoolVal(not sets), g2))
+    yield ('image_gets_the_opacity_of_its_layer', goal,
+           'the image returned by the layer is passed on unchanged except that its opacity is set to the opacity of THAT layer')
+
+
+contract(SW + 'LayerRenderer._render_layer', props=['C14'],
+         types=dict(layer='opaque'), returns='tuple[opaque,opt[opaque]]', default_callee='opaque',
+         opaque_fields={'opacity': 'opt[real]'}, stable_fields=[],
+         opaque_spec={'get_map': {'returns': 'opt[opaque]', 'raises': ['SourceError', 'MapBBOXError', 'MapError', 'TransformationError',
+                                                                      'BlankImage']}},
+         raises={'SourceError': True, 'RequestError': True},
+         trace=[_render_layer_spec])
+
+
+def _merge_step(ex, st, k):
+    """one finished layer task: its image (if any) is added to the merger together with the coverage of ITS layer"""
+    import z3
+    from pyvc.values import eq
+    evs_ = st.trace[getattr(st, 'iter_start_trace', 0):]
+    adds = [e for e in evs_ if e.name == 'add']
+    task = st.env['layer_task']
+    pre = st.iter_start_state
+    exc = ex.opaque_field(pre, task, 'exception')
+    res = ex.opaque_field(pre, task, 'result')
+    lyr, img = res.items
+    goal_none = z3.BoolVal(len(adds) == 0)
+    goal_add = z3.BoolVal(len(adds) == 1)
+    if len(adds) == 1:
+        a = adds[0]
+        goal_add = z3.And(goal_add, z3.BoolVal(_same(a.recv, st.env['layer_merger']) and len(a.args) == 2 and not a.kwargs),
+                          eq(a.args[0], img), eq(a.args[1], ex.opaque_field_at(st, a, lyr, 'coverage')))
+    ok_task = exc.isnone
+    yield ('finished_layer_added_once_with_its_coverage',
+           z3.Implies(ok_task, z3.If(img.isnone, goal_none, goal_add)),
+           'a layer task that succeeded contributes exactly one merger.add(image, layer.coverage) - none if the layer was blank')
+    yield ('failed_layer_adds_no_image', z3.Implies(z3.Not(ok_task), goal_none), 'a failed layer task adds no image in its turn')
+    capture = 'rendered' in st.env
+    rr = [e for e in evs_ if e.name == 'reraise']
+    sh = [e for e in evs_ if e.name == 'shutdown']
+    rr_ok = len(rr) == 1 and len(rr[0].args) == 1 and len(sh) == 1 and st.trace.index(sh[0]) < st.trace.index(rr[0])
+    g_rr = z3.BoolVal(bool(rr_ok))
+    if rr_ok:
+        g_rr = z3.And(g_rr, eq(rr[0].args[0], exc.val))
+    if not capture:
+        yield ('failed_layer_is_not_skipped', z3.Implies(z3.Not(ok_task), g_rr),
+               'a failed layer task stops the rendering: pool shut down and the stored exception re-raised (never a picture with a '
+               'layer silently missing)')
+    else:
+        r0, r1 = pre.env['rendered'].t, st.env['rendered'].t
+        e0, e1 = pre.env['errors'], st.env['errors']
+        yield ('rendered_counts_successes', z3.If(ok_task, z3.And(r1 == r0 + 1, e1.length() == e0.length()), r1 == r0),
+               '`rendered` counts exactly the layer tasks that succeeded')
+        nc = [e for e in evs_ if e.name == 'setattr:cacheable']
+        g_nc = z3.BoolVal(len(nc) == 1 and _same(nc[0].recv, st.env['layer_merger']))
+        if len(nc) == 1:
+            g_nc = z3.And(g_nc, z3.Not(ex.truth(st, nc[0].args[1])))
+        yield ('partial_picture_is_not_cacheable', z3.Implies(z3.Not(ok_task), g_nc),
+               'as soon as one layer failed the merged result is marked not cacheable')
+        yield ('failed_layer_is_recorded_or_reraised', z3.Implies(z3.Not(ok_task), z3.Or(e1.length() == e0.length() + 1, g_rr)),
+               'a failed layer is either recorded as a source error (to be shown in the picture) or its exception is re-raised')
+
+
+_TASKF = {'exception': 'opt[opaque]', 'result': 'tuple[opaque,opt[opaque]]', 'coverage': 'opt[opaque]'}
+
+
+def _imap_in_order(ex, st, post, result):
+    import z3
+    im = [e for i, e in T.evs(st, 'imap')]
+    ok = len(im) == 1 and _same(im[0].recv, post.env['async_pool']) and len(im[0].args) == 2 \
+        and _same(im[0].args[1], post.env['render_layers']) and getattr(im[0].args[0], 'name', '').endswith('_render_layer') \
+        and 'use_result_objects' in im[0].kwargs
+    g = z3.BoolVal(bool(ok))
+    if ok:
+        g = z3.And(g, ex.truth(st, im[0].kwargs['use_result_objects']))
+    yield ('all_layers_rendered_in_order', g,
+           'the tasks are pool.imap(self._render_layer, render_layers, use_result_objects=True): one per layer, results consumed '
+           'in layer order (C15), failures delivered as results')
+    if 'rendered' in st.env:
+        adds = [e for i, e in T.evs(st, 'add')]
+        mi = [e for i, e in T.evs(st, 'message_image')]
+        some = st.env['rendered'].t > 0
+        errs = st.env['errors']
+        yield ('no_picture_without_any_layer', z3.Implies(post.env['render_layers'].length() > 0, some),
+               'a normal return means at least one layer was rendered (otherwise RequestError)')
+        tail = [e for e in adds if mi and _same(e.args[0], mi[0].result)]
+        has_err = errs.length() > 0 if hasattr(errs, 'length') else ex.truth(st, errs)
+        io = [e for i, e in T.evs(st, 'ImageOptions')]
+        transp = z3.BoolVal(False)
+        if len(mi) == 1 and len(io) == 1 and 'transparent' in io[0].kwargs and 'image_opts' in mi[0].kwargs \
+                and _same(mi[0].kwargs['image_opts'], io[0].result):
+            transp = ex.truth(st, io[0].kwargs['transparent'])
+        yield ('source_errors_are_shown',
+               z3.Implies(has_err, z3.And(z3.BoolVal(len(mi) == 1 and len(tail) == 1 and adds[-1] is tail[0]), transp)),
+               'recorded source errors are rendered as a TRANSPARENT message image added LAST (on top; it must not hide the layers '
+               'that did render)')
+
+
+for fn_, extra in (('_render_raise_exceptions', {}), ('_render_capture_source_errors', {'errors': 'list[opaque]', 'rendered': 'int'})):
+    contract(SW + 'LayerRenderer.' + fn_, props=['C14'],
+             types=dict(async_pool='opaque', render_layers='list[opaque]', layer_merger='opaque'), returns='none',
+             default_callee='opaque', opaque_fields=dict(_TASKF), stable_fields=['exception', 'result', 'coverage'],
+             opaque_spec={'imap': {'returns': 'list[opaque]', 'pure': True}, 'add': {}, 'shutdown': {},
+                          'reraise': {'raises': ['Exception', 'SourceError']}, 'message_image': {'pure': True},
+                          'ImageOptions': {'pure': True}},
+             raises={'RequestError': True, 'Exception': True, 'SourceError': True},
+             loops={0: dict(inv=[] if not extra else ['rendered >= 0', 'rendered + len(errors) <= _k'], types=dict(extra, layer_task='opaque'),
+                            body_trace=[_merge_step])},
+             trace=[_imap_in_order])
+
+
+def _render_dispatch(ex, st, post, result):
+    import z3
+    from pyvc.values import eq
+    h = st.heap[post.env['self'].ref]
+    cl = [e for i, e in T.evs(st, 'combined_layers')]
+    ok = len(cl) == 1 and len(cl[0].args) == 2 and _same(cl[0].args[1], h['query'])
+    g = z3.BoolVal(bool(ok))
+    if ok:
+        g = z3.And(g, eq(cl[0].args[0], h['layers']))
+    yield ('renders_the_combined_layer_list', g, 'the layers rendered are combined_layers(self.layers, self.query)')
+    if not ok:
+        return
+    rl = cl[0].result
+    a = [e for i, e in T.evs(st, '_render_raise_exceptions')]
+    b = [e for i, e in T.evs(st, '_render_capture_source_errors')]
+    calls = a + b
+    empty = rl.length() == 0
+    good = len(calls) == 1 and len(calls[0].args) >= 3 and _same(calls[0].args[-1], post.env['layer_merger'])
+    g2 = z3.BoolVal(bool(good))
+    if good:
+        g2 = z3.And(g2, eq(calls[0].args[-2], rl), ex.truth(st, h['raise_source_errors']) == z3.BoolVal(bool(a)))
+    yield ('every_combined_layer_goes_to_the_merger', z3.If(empty, z3.BoolVal(not calls), g2),
+           'unless there is nothing to render, the whole combined list and the given merger are handed to exactly one of the two '
+           'render loops (raising / capturing source errors as configured)')
+
+
+contract(SW + 'LayerRenderer.render', props=['C14'],
+         types=dict(layer_merger='opaque'), returns='opaque', default_callee='opaque',
+         opaque_spec={'combined_layers': {'returns': 'list[opaque]', 'pure': True}, 'Pool': {'pure': True},
+                      '_render_raise_exceptions': {'raises': ['RequestError']}, '_render_capture_source_errors': {'raises': ['RequestError']}},
+         opaque=['combined_layers', '_render_raise_exceptions', '_render_capture_source_errors'],
+         raises={'RequestError': True},
+         trace=[_render_dispatch])
